@@ -2,3 +2,4 @@
 //! shares no code or constant tables with /repo).
 pub mod mpqcrypt;
 pub mod lookup3;
+pub mod mpqref;
